@@ -40,6 +40,31 @@ INST_NUM = [
 ]
 
 
+TRUSTED = [
+    "translators/tr_escape.py (python-ast shape matcher for quote_attrib / quote_xml_aux / quote_xml / CDATA_pattern_ / "
+    "gds_format_integer / gds_parse_integer / gds_format_float / gds_parse_float / gds_validate_string; fail closed)",
+    "hand-written model of an XML 1.0 reader for one attribute value and for character data (coq/Model/Escape.v attr_parse, "
+    "text_parse), validated against lxml/libxml2 on the writer's outputs and on raw inputs in every run",
+    "hand-written reading of the regular expression <!\\[CDATA\\[.*?\\]\\]> (DOTALL) and of the finditer loop "
+    "(quote_xml_loop), validated against the real quote_xml in every run",
+    "CPython '%d' / int() / '%.15f' renderings (the model's fmt_int / parse_int and the strip step are compared with them)",
+]
+ASSUMPTIONS = [
+    "strings are byte strings in Coq; UTF-8 sequences of non-ASCII characters pass through both the writer and the reader "
+    "unchanged (exercised by the non-ASCII stream under a UTF-8 locale, not proved)",
+    "attribute values: TAB, CR and C0 controls are outside the property's printable text (the reader normalises TAB/CR to a "
+    "space and rejects other controls; Examples attr_tab_not_verbatim, attr_cr_not_verbatim, attr_c0_not_wellformed)",
+    "element text: CR is outside (read back as LF); a complete <![CDATA[...]]> section inside a string is the known finding",
+    "int(): surrounding blanks, '_' separators and non-ASCII digits accepted by Python are not modelled (never written by '%d')",
+]
+RULE = ("strings over a special-character alphabet (< > & quotes newline ; # entity and character references, ]]>, CDATA openers; "
+        "streams: printable, with TAB/CR, with C0 controls, complete / incomplete CDATA sections, non-ASCII) are written by the REAL "
+        "quote_attrib / quote_xml, parsed by lxml inside <a v=.../> and <a>...</a>, and must come back verbatim when in the "
+        "property's domain; the same inputs and outputs are diffed inside Coq against the model writer (tables translated from "
+        "nml.py) and the model readers; raw reader inputs (valid and invalid references, line ends, CDATA, ]]>) are diffed "
+        "against lxml; integers and '%.15f' renderings likewise. non-trivial = in-domain string with at least one of "
+        "< > & quote newline, distinct by content; integers with >= 2 digits; decimals with a fractional part")
+
 # ------------------------------------------------------------------ Coq terms
 def cbytes(b):
     """Coq string term for arbitrary bytes: printable ASCII + newline as literals, everything else (TAB, CR, other
@@ -269,7 +294,7 @@ def _indices(res):
     return [int(x) for x in re.findall(r"\d+", res)]
 
 
-def eval_cases(ck, name, gen_ok, qa, qx, pa, px, ints, rints):
+def eval_cases(ck, name, gen_ok, qa, qx, pa, px, ints, rints, flts):
     imp = "From Run Require Import Gen_Escape.\n" if gen_ok else ""
     fa, fx = ("gen_quote_attrib", "gen_quote_xml") if gen_ok else ("quote_attrib", "quote_xml")
     t = HEADER % imp
@@ -286,6 +311,8 @@ def eval_cases(ck, name, gen_ok, qa, qx, pa, px, ints, rints):
     t += "Eval vm_compute in (mism_opt text_parse px_cases 0).\n"
     t += "Eval vm_compute in (mism_gen String.eqb fmt_int int_cases 0).\n"
     t += "Eval vm_compute in (mism_gen oz_eqb parse_int rint_cases 0).\n"
+    t += "Definition flt_cases : list (string * string) := %s.\n" % clist(["(%s, %s)" % (cbytes(a), cbytes(b)) for a, b in flts])
+    t += "Eval vm_compute in (mism_str (float_finish_of %s) flt_cases 0).\n" % ("gen_float_format" if gen_ok else "ref_float_format")
     return ck.coq_eval(name, t, timeout=600)
 
 
@@ -299,21 +326,19 @@ def run_escape(ck):
         gen_ok, out = ck.coqc(g)
         ck.oblige("Gen_Escape.v:compiles", gen_ok, out[-1500:], kind="translate")
     if gen_ok:
-        held = instances(ck, "Inst_Escape.v", INST_TABLES)
-        instances(ck, "Inst_EscapeNum.v", INST_NUM)
+        held = instances(ck, "Inst_Escape.v", INST_TABLES) + instances(ck, "Inst_EscapeNum.v", INST_NUM)
         # ---- 3: theorems
-        if len(held) == len(INST_TABLES):
+        if len(held) == len(INST_TABLES) + len(INST_NUM):
             ck.compile_props("C01_escape.v")
         else:
             props_split(ck, "C01_escape.v")
     else:
-        for nm in ("C01_attr", "C01_attr_printable", "C01_text", "C01_text_strong", "C01_text_printable",
-                   "C01_text_cdata_refuted", "C01_int"):
+        for nm in re.findall(r"(?m)^Theorem\s+([A-Za-z0-9_']+)", open(os.path.join(VERIF, "coq", "Props", "C01_escape.v")).read()):
             ck.oblige("Props_C01_escape.v:" + nm, False,
                       "not established: the text-layer functions of nml.py could not be translated "
                       "(see translate:tr_escape)", kind="theorem")
     # ---- 4/5: inputs
-    n_str = ck.n(700, 30000)
+    n_str = ck.n(700, 15000)
     kinds = [("printable", 0.40), ("cdata-complete", 0.12), ("cdata-incomplete", 0.12), ("tabcr", 0.14), ("ctrl", 0.06),
              ("nonascii", 0.16)]
     strings = [(s, "fixed") for s in FIXED_STRINGS]
@@ -325,10 +350,10 @@ def run_escape(ck):
             if r < acc:
                 break
         strings.append((gen_string(rng, k), k))
-    raw_attr = FIXED_RAW_ATTR + [gen_raw_attr(rng) for _ in range(ck.n(300, 8000))]
-    raw_text = FIXED_RAW_TEXT + [gen_raw_text(rng) for _ in range(ck.n(300, 8000))]
+    raw_attr = FIXED_RAW_ATTR + [gen_raw_attr(rng) for _ in range(ck.n(300, 5000))]
+    raw_text = FIXED_RAW_TEXT + [gen_raw_text(rng) for _ in range(ck.n(300, 5000))]
     ints = list(FIXED_INTS)
-    for _ in range(ck.n(150, 5000)):
+    for _ in range(ck.n(150, 3000)):
         mag = rng.choice([1, 2, 3, 5, 9, 10, 18, 19, 20, 40])
         ints.append(rng.randrange(-10 ** mag, 10 ** mag))
     raw_ints = list(FIXED_RAW_INTS)
@@ -337,7 +362,7 @@ def run_escape(ck):
                         + rng.choice(["", "", "", "x", ".", "-"]))
     raw_ints = [t for t in raw_ints if t.strip() == t and "_" not in t]     # blanks / '_' of int() are not modelled
     floats = list(FIXED_FLOATS)
-    for _ in range(ck.n(400, 100000)):
+    for _ in range(ck.n(400, 50000)):
         k = rng.randrange(0, 16)
         mag = rng.choice([0, 0, 1, 2, 3, 6])
         m = rng.randrange(-10 ** (k + mag), 10 ** (k + mag) + 1)
@@ -392,15 +417,11 @@ def run_escape(ck):
                        expected=z, observed=r, broken="Inst_EscapeNum.v:gen_int_format_is_ref")
     for t, r in zip(floats, res["floats"]):
         ck.count(1, nontrivial_key=("f", t) if "e-" in t and not t.endswith("e-0") else None)
-        want = r["x15"].rstrip("0")
-        want += "0" if want.endswith(".") else ""
         if r["back15"] != r["x15"]:
             ck.witness("C01:float-not-to-15-decimals",
                        "a schema-float value is not read back to the 15 decimal places the format carries",
                        input={"value": t, "written": r["fmt"]}, expected=r["x15"], observed=r["back15"],
                        broken="Inst_EscapeNum.v:gen_float_format_is_ref")
-        elif r["fmt"] != want:
-            ck.disagree("reference float format ('%.15f', rstrip '0', '.0')", {"value": t}, want, r["fmt"])
     ck.tally("raw_attr", len(raw_attr))
     ck.tally("raw_text", len(raw_text))
     ck.tally("ints", len(ints))
@@ -425,22 +446,31 @@ def run_escape(ck):
         px = [(r["qx"], r["px"]) for _, r in us] + rt
         ic = chunk([(z, r["fmt"]) for z, r in zip(ints, res["ints"])], i)
         rc = chunk(list(zip(raw_ints, res["raw_ints"])), i)
-        jobs.append((i, qa, qx, pa, px, ic, rc))
+        fc = chunk([(r["x15"], r["fmt"]) for r in res["floats"]], i)
+        jobs.append((i, qa, qx, pa, px, ic, rc, fc))
     with ThreadPoolExecutor(max_workers=8) as ex:
         evals = list(ex.map(lambda j: eval_cases(ck, "Cases_Escape_%d.v" % j[0], gen_ok, *j[1:]), jobs))
     ncases = 0
-    for (i, qa, qx, pa, px, ic, rc), (ok, results, out) in zip(jobs, evals):
-        ck.oblige("Cases_Escape_%d.v:evaluates" % i, ok and len(results) == 6, out[-1500:], kind="correspondence")
-        if not ok or len(results) != 6:
+    for (i, qa, qx, pa, px, ic, rc, fc), (ok, results, out) in zip(jobs, evals):
+        ck.oblige("Cases_Escape_%d.v:evaluates" % i, ok and len(results) == 7, out[-1500:], kind="correspondence")
+        if not ok or len(results) != 7:
             continue
-        ncases += len(qa) + len(qx) + len(pa) + len(px) + len(ic) + len(rc)
+        ncases += len(qa) + len(qx) + len(pa) + len(px) + len(ic) + len(rc) + len(fc)
         for name, cases, r in (("Escape.quote_attrib_of (tables from nml.py)" if gen_ok else "Escape.quote_attrib (reference)", qa, results[0]),
                                ("Escape.quote_xml_of (tables from nml.py)" if gen_ok else "Escape.quote_xml (reference)", qx, results[1]),
                                ("Escape.attr_parse vs lxml", pa, results[2]), ("Escape.text_parse vs lxml", px, results[3]),
-                               ("Dec.fmt_int vs gds_format_integer", ic, results[4]), ("Dec.parse_int vs gds_parse_integer", rc, results[5])):
+                               ("Dec.fmt_int vs gds_format_integer", ic, results[4]), ("Dec.parse_int vs gds_parse_integer", rc, results[5]),
+                               ("Escape.float_finish_of('%.15f' rendering) vs gds_format_float", fc, results[6])):
             for idx in _indices(r):
                 inp, outp = cases[idx]
                 ck.disagree(name, inp, "(differs; evaluate in Cases_Escape_%d.v, index %d)" % (i, idx), outp)
+    for t in TRUSTED:
+        if t not in ck.trusted:
+            ck.trusted.append(t)
+    for a in ASSUMPTIONS:
+        if a not in ck.assumptions:
+            ck.assumptions.append(a)
+    ck.extra["escape_rule"] = RULE
     ck.extra["escape_correspondence_cases"] = ncases
     ck.extra["escape_strings"] = len(strings)
     return d
